@@ -48,7 +48,7 @@ type TxSpec struct {
 	Type     int        `json:"type"`      // 0 legacy, 1 access list, 2 dynamic fee, 3 set code
 	Tip      uint64     `json:"tip"`
 	FeeCap   uint64     `json:"fee_cap"`
-	Gas      uint64     `json:"gas"`      // 0 = exactly what the transaction needs
+	Gas      uint64     `json:"gas"`       // 0 = exactly what the transaction needs
 	GasDelta int        `json:"gas_delta"` // added to the needed gas when Gas == 0
 	Value    uint64     `json:"value"`
 	ValueBal int        `json:"value_bal,omitempty"` // if != 0: value = balance*ValueBal/100 - worst-case fee (around the balance)
@@ -67,14 +67,14 @@ type BalEdit struct {
 }
 
 type BlockSpec struct {
-	Include    []int    `json:"include,omitempty"`  // per account: how many of its pool-pending transactions to include
-	KeepOld    uint64   `json:"keep_old,omitempty"` // reorg: bit i set = candidate i of the abandoned branch's transactions is re-included
-	Foreign    []TxSpec `json:"foreign,omitempty"`  // transactions the pool never saw
-	ForeignPre bool     `json:"foreign_pre,omitempty"` // foreign transactions go before the pool's (they win same-nonce conflicts)
+	Include    []int     `json:"include,omitempty"`     // per account: how many of its pool-pending transactions to include
+	KeepOld    uint64    `json:"keep_old,omitempty"`    // reorg: bit i set = candidate i of the abandoned branch's transactions is re-included
+	Foreign    []TxSpec  `json:"foreign,omitempty"`     // transactions the pool never saw
+	ForeignPre bool      `json:"foreign_pre,omitempty"` // foreign transactions go before the pool's (they win same-nonce conflicts)
 	Edits      []BalEdit `json:"edits,omitempty"`
-	BaseFee    uint64   `json:"base_fee"`
-	GasLimit   uint64   `json:"gas_limit,omitempty"`
-	GasUsedPct int      `json:"gas_used_pct"`
+	BaseFee    uint64    `json:"base_fee"`
+	GasLimit   uint64    `json:"gas_limit,omitempty"`
+	GasUsedPct int       `json:"gas_used_pct"`
 }
 
 type LPOp struct {
